@@ -61,6 +61,7 @@ type c11Exec struct {
 	farDeadline bool // cancel plans: the context also has a deadline, an hour away
 	longLived   bool // run under the long-lived parent context (terminating scripts only)
 	guardLoop   bool // step/walk only: the action fails at once and the guard of its error branch never ends
+	unhandled   bool // mode 1 only: the node's only branch handles another error ({"actionError":"disk full"}), so the timeout follows no branch
 	guardKind   int  // 1: the action fails and the guard of its error branch loops; 2: the action completes and the guard of its branch loops; 3: no action, a pattern with two candidates, the guard loops for one of them
 }
 
@@ -87,7 +88,10 @@ func runC11(c *sim.Ctx, t *testing.T) {
 		if !c11Scripts[p.script].endless && p.cancelAt == 0 && c.Bool("longlived") {
 			p.longLived = true
 		}
-		if p.via != "exec" && !p.longLived && c.Chance(1, 5, "guardloop") {
+		if p.via != "exec" && p.mode == 1 && c11Scripts[p.script].endless && c.Chance(1, 3, "unhandled") {
+			p.unhandled = true
+		}
+		if p.via != "exec" && !p.longLived && !p.unhandled && c.Chance(1, 5, "guardloop") {
 			p.guardLoop = true
 			p.guardKind = 1 + c.Intn(3, "guardkind")
 			if p.guardKind == 1 {
@@ -98,12 +102,13 @@ func runC11(c *sim.Ctx, t *testing.T) {
 	}
 	interp := ecmascript.NewInterpreter()
 	type outcome struct {
-		returned bool
-		err      string
-		node     string
-		bsErr    string
-		emitted  int
-		ended    time.Duration
+		returned    bool
+		err         string
+		node        string
+		bsErr       string
+		bsActionErr string
+		emitted     int
+		ended       time.Duration
 	}
 	outs := make([]outcome, n)
 	var lg *sim.Log
@@ -179,6 +184,9 @@ func runC11(c *sim.Ctx, t *testing.T) {
 					switch p.mode {
 					case 1:
 						spec.ActionErrorBranches = true
+						if p.unhandled {
+							spec.Nodes["a"].Branches.Branches = []*core.Branch{{Pattern: map[string]interface{}{"actionError": "disk full"}, Target: "b"}}
+						}
 					case 2:
 						spec.ActionErrorNode = "aerr"
 					}
@@ -233,6 +241,7 @@ func runC11(c *sim.Ctx, t *testing.T) {
 						} else if e, ok := to.Bs["actionError"].(string); ok {
 							o.bsErr = e
 						}
+						o.bsActionErr, _ = to.Bs["actionError"].(string)
 					}
 				}
 				o.returned = true
@@ -356,7 +365,12 @@ func runC11(c *sim.Ctx, t *testing.T) {
 					c.Violate("timeout:misrouted:step", "%s: Step returned error %q and state %q, expected the timeout error", desc, o.err, o.node)
 				}
 			case 1:
-				if o.err != "" || o.node != "b" || o.bsErr != timeoutText {
+				if p.unhandled {
+					// no branch handles it: the error node, and the timeout still named in the bindings
+					if o.err != "" || o.node != "error" || o.bsActionErr != timeoutText {
+						c.Violate("timeout:misrouted:step-unhandled", "%s: no branch handles a timeout: expected the error node with actionError bound to the timeout error; got err=%q node=%q actionError=%q", desc, o.err, o.node, o.bsActionErr)
+					}
+				} else if o.err != "" || o.node != "b" || o.bsErr != timeoutText {
 					c.Violate("timeout:misrouted:step-branches", "%s: expected to follow the branches with the timeout error bound; got err=%q node=%q error=%q", desc, o.err, o.node, o.bsErr)
 				}
 			case 2:
@@ -366,7 +380,11 @@ func runC11(c *sim.Ctx, t *testing.T) {
 			}
 		case "walk":
 			want := map[int]string{0: "error", 1: "b", 2: "aerr"}[p.mode]
-			if o.err != "" || o.node != want || o.bsErr != timeoutText {
+			if p.unhandled {
+				if o.err != "" || o.node != "error" || o.bsActionErr != timeoutText {
+					c.Violate("timeout:misrouted:walk-unhandled", "%s: no branch handles a timeout: expected the error node with actionError bound to the timeout error; got err=%q node=%q actionError=%q", desc, o.err, o.node, o.bsActionErr)
+				}
+			} else if o.err != "" || o.node != want || o.bsErr != timeoutText {
 				c.Violate("timeout:misrouted:walk", "%s: expected node %q with the timeout error bound; got err=%q node=%q error=%q", desc, want, o.err, o.node, o.bsErr)
 			}
 		}
